@@ -460,6 +460,38 @@ def run(tier, seed):
                 shutil.rmtree(path, ignore_errors=True)
         finally:
             env_on.uninstall()
+        # ---- histories ACROSS invocations: what an earlier run of the tool left in the output directory must not decide what a later run
+        # writes for a PEL (a log restored under the same name and entry id with an older time stamp; a run with -P followed by a plain run)
+        env_on.install()
+        try:
+            import glob
+            for k in range(6 if thorough else 3):
+                d = clirun.keep_decodable(env_on, clirun.gen_wf_dir(rng, 2))
+                if len(d) < 2:
+                    continue
+                (n1, p1), (n2, p2) = d[0], d[1]
+                p2['ph']['eid'] = p1['ph']['eid']
+                b1, b2 = apel.enc_pel(p1), apel.enc_pel(p2)
+                for first_argv, first_data, label in ((['-E'], b1, 'another log with the same name and entry id was converted before'), (['-E', '-P'], b2, 'the same log was converted with -P before')):
+                    dd = clirun.make_dir([('the_log', first_data)], base=tmp)
+                    od = clirun.make_dir([], base=tmp)
+                    fresh_od = clirun.make_dir([], base=tmp)
+                    clirun.run_main(['-p', dd, '-j', '-o', od] + first_argv)
+                    open(os.path.join(dd, 'the_log'), 'wb').write(b2)
+                    old = os.stat(os.path.join(dd, 'the_log')).st_mtime - 7200
+                    os.utime(os.path.join(dd, 'the_log'), (old, old))
+                    clirun.run_main(['-p', dd, '-j', '-o', od, '-E'])
+                    clirun.run_main(['-p', dd, '-j', '-o', fresh_od, '-E'])
+                    got = sorted((os.path.basename(f), open(f).read()) for f in glob.glob(os.path.join(od, '*.json')))
+                    want = sorted((os.path.basename(f), open(f).read()) for f in glob.glob(os.path.join(fresh_od, '*.json')))
+                    ck.case(key=('across', label, b1, b2))
+                    ck.count('history across invocations')
+                    if got != want:
+                        ck.fail('what --json writes for a PEL depends on what an earlier invocation left in the output directory (%s)' % label,
+                                {'op': 'history-across-invocations', 'history': [first_data.hex(), b2.hex()], 'case': label, 'files_written': [n for n, _ in got], 'expected_files': [n for n, _ in want]},
+                                'across_invocations')
+        finally:
+            env_on.uninstall()
     finally:
         shutil.rmtree(tmp, ignore_errors=True)
     return ck.finish(RULE, TRUSTED, ASSUME)
